@@ -3,6 +3,7 @@ package main
 // Translation of contract expressions to SMT terms.
 
 import (
+	"regexp"
 	"os"
 	"fmt"
 	"go/ast"
@@ -198,6 +199,15 @@ func (cx *evalCtx) expr(e *SExpr) (TV, error) {
 			return TV{}, err
 		}
 		g := and(guards...)
+		if pattern == "" && e.Op == "forall" && len(e.Vars) == 1 {
+			// no array trigger: use an application of an uninterpreted (spec or key-theory) function to the bound variable,
+			// so that the solver instantiates by matching instead of model-based search
+			outer := map[string]bool{}
+			for _, v := range cx.bound {
+				outer[v.S] = true
+			}
+			pattern = findUFPattern(b, n.bound[e.Vars[0].Name].S, outer)
+		}
 		if e.Op == "forall" {
 			body := implies(g, b)
 			if pattern != "" && strings.Contains(body, pattern) {
@@ -1566,4 +1576,53 @@ func isKeyLike(r *Run, t types.Type) bool {
 		return true
 	}
 	return false
+}
+
+var qvarRe = regexp.MustCompile(`q_[A-Za-z0-9_]+`)
+
+// findUFPattern: the smallest term f(... v ...) in body with f uninterpreted (spec_*, kcat, kdrop, pend) that mentions the
+// bound variable v, contains no arithmetic and no variable bound further inside.
+func findUFPattern(body, v string, outer map[string]bool) string {
+	best := ""
+	for _, head := range []string{"(spec_", "(kcat ", "(kdrop ", "(pend "} {
+		for from := 0; ; {
+			i := strings.Index(body[from:], head)
+			if i < 0 {
+				break
+			}
+			i += from
+			from = i + 1
+			depth, j := 0, i
+			for ; j < len(body); j++ {
+				if body[j] == '(' {
+					depth++
+				} else if body[j] == ')' {
+					depth--
+					if depth == 0 {
+						break
+					}
+				}
+			}
+			if j >= len(body) {
+				continue
+			}
+			term := body[i : j+1]
+			ok := false
+			for _, m := range qvarRe.FindAllString(term, -1) {
+				if m == v {
+					ok = true
+				} else if !outer[m] {
+					ok = false
+					break
+				}
+			}
+			if !ok || strings.Contains(term, "(+ ") || strings.Contains(term, "(- ") || strings.Contains(term, "(* ") || strings.Contains(term, "(ite ") || strings.Contains(term, "(forall ") || strings.Contains(term, "(exists ") {
+				continue
+			}
+			if best == "" || len(term) < len(best) {
+				best = term
+			}
+		}
+	}
+	return best
 }
